@@ -1,6 +1,7 @@
 import Comdex.Base.Line
 import Comdex.Model.DutchPrice
 import Comdex.Model.DutchV2
+import Comdex.Model.DutchV1
 /-! Driver plug-in for the Dutch-auction models (C10).
 
 Pure price-function lines (real exported helpers / real block hooks on synthetic records):
@@ -19,6 +20,11 @@ Sequence lines (second generation, one seized position):
   dutch.reserve who amt                    <outcome> <rec> <balances> <misc>
 rec      := `closed` | `coll=..;debt=..;bonus=..;price=..;init=..;orc=..;ord=..;start=..;end=..`
 balances := `name:coll:debt,...`      misc := `net=..;ext=..;res=..;supply=..;...`
+First generation (x/auction), one seized vault:
+  dutch.v1.begin <env1> <rec1> <balances> <misc>
+  dutch.v1.bid   who slice                <ok|err|validate|panic> <rec1> <balances> <misc>
+  dutch.v1.tick  now twaC actC twaD actD  <ok|panic> <rec1> <balances> <misc>
+rec1 := `closed` | `out=..;in=..;price=..;init=..;endp=..;inp=..;start=..;end=..`   misc := `net=<n|none>;supply=..`
 Monitors (on REAL values): pay_le_target receive_le_collateral posted_price price_monotone price_in_range
 price_in_range_slack close_distributes reserve_draw_skipped start_price start_record.
 -/
@@ -43,6 +49,25 @@ structure Obs where
   res : Option Int
   supply : Int
 
+
+/-! ### first generation -/
+structure Obs1 where
+  auc : Option DutchV1.Auc
+  bals : List (String × Int × Int)
+  net : Option Int
+  supply : Int
+
+structure V1St where
+  e : DutchV1.Env := {}
+  s : DutchV1.St := {}
+  prev : Option Obs1 := none
+  begin_ : Option Obs1 := none
+  supply0 : Int := 0
+  realPaid : Int := 0
+  realRecv : Int := 0
+  baseC : Int := 0
+  baseD : Int := 0
+
 structure St where
   e : Env := {}
   s : DutchV2.St := {}
@@ -58,6 +83,7 @@ structure St where
   drawnReal : Int := 0
   shortReal : Int := 0
   closedSeen : Bool := false
+  v1 : V1St := {}
 
 def init : St := {}
 
@@ -227,8 +253,171 @@ def pureLine (seq : String) (m : Except Unit Int) (o v : String) (okTag : String
   let is := if o = okTag then s!"{okTag}\t{v}" else "fail\t-"
   if ms = is then [] else [s!"DIFF\t{seq}\tmodel={ms}\timpl={o} {v}"]
 
+
+/-! ### first generation handlers -/
+def parseRec1 (s : String) : Option (Option DutchV1.Auc) :=
+  if s = "closed" then some none else
+  let fs := kv s
+  do
+    let o ← getI fs "out"; let i ← getI fs "in"; let price ← getI fs "price"; let ini ← getI fs "init"
+    let ep ← getI fs "endp"; let ip ← getI fs "inp"; let st ← getI fs "start"; let en ← getI fs "end"
+    pure (some { outCur := o, inCur := i, price := price, init := ini, endP := ep, inPrice := ip, start := st, end_ := en })
+
+def showRec1 : Option DutchV1.Auc → String
+  | none => "closed"
+  | some a => s!"out={a.outCur};in={a.inCur};price={a.price};init={a.init};endp={a.endP};inp={a.inPrice};start={a.start};end={a.end_}"
+
+def parseObs1 (r b m : String) : Option Obs1 := do
+  let rec ← parseRec1 r
+  let bals ← parseBals b
+  let fs := kv m
+  let supply ← getI fs "supply"
+  let netS ← field? fs "net"
+  let net ← if netS = "none" then some none else (parseInt? netS).map some
+  pure { auc := rec, bals := bals, net := net, supply := supply }
+
+def bal1 (o : Obs1) (n : String) : Int × Int :=
+  match o.bals.find? (·.1 = n) with | some (_, c, d) => (c, d) | none => (0, 0)
+
+def bankOf1 (o : Obs1) : Bank :=
+  o.bals.foldl (fun b (n, c, d) =>
+    match acctOf n with
+    | some a => (b.set a .coll c).set a .debt d
+    | none => b) []
+
+def modelObs1 (v : V1St) (o : Obs1) : Obs1 :=
+  { auc := v.s.auc,
+    bals := o.bals.map fun (n, _, _) =>
+      match acctOf n with
+      | some a => (n, v.s.bank.get a .coll, v.s.bank.get a .debt)
+      | none => (n, 0, 0),
+    net := v.s.netFees, supply := v.supply0 - v.s.burned }
+
+def showObs1 (o : Obs1) : String :=
+  let net := match o.net with | none => "none" | some q => toString q
+  s!"{showRec1 o.auc} {showBals o.bals} net={net};supply={o.supply}"
+
+def sameObs1 (a b : Obs1) : Bool := a.auc == b.auc && a.bals == b.bals && a.net == b.net && a.supply == b.supply
+
+def parseEnv1 (s : String) : Option DutchV1.Env :=
+  let fs := kv s
+  do
+    let decC ← getI fs "decC"; let decD ← getI fs "decD"; let target ← getI fs "target"; let principal ← getI fs "principal"
+    let coll0 ← getI fs "coll0"; let dust ← getI fs "dust"; let T ← getI fs "T"; let buffer ← getI fs "buffer"
+    let cusp ← getI fs "cusp"; let od ← getI fs "oracleDebt"; let fd ← getI fs "fixedDebt"
+    pure { decC := decC, decD := decD, target := target, principal := principal, coll0 := coll0, dust := dust, T := T,
+           buffer := buffer, cusp := cusp, oracleDebt := od = 1, fixedDebt := fd }
+
+def finish1 (v : V1St) (seq : String) (isBid : Bool) (okM : Bool) (outcome : String) (o : Obs1) (extra : List String) : V1St × List String :=
+  let mo := modelObs1 v o
+  let d1 := if isBid ∧ okM != (outcome = "ok") then [s!"DIFF\t{seq}\toutcome model={okM} impl={outcome}"] else []
+  let d2 := if sameObs1 mo o then [] else [s!"DIFF\t{seq}\tmodel={showObs1 mo}\timpl={showObs1 o}"]
+  let prev := v.prev.getD o
+  let (paidNow, recvNow) := ["b1", "b2", "b3", "b4"].foldl (fun (p, r) n =>
+    let (c0, d0) := bal1 prev n
+    let (c1, d1) := bal1 o n
+    (p + (d0 - d1), r + (c1 - c0))) (0, 0)
+  let realPaid := v.realPaid + paidNow
+  let realRecv := v.realRecv + recvNow
+  let m1 := mon seq "pay_le_target" (decide (realPaid ≤ v.e.target))
+  let m2 := mon seq "receive_le_collateral" (decide (realRecv ≤ v.e.coll0))
+  let closing := prev.auc.isSome ∧ o.auc.isNone
+  let m3 :=
+    if closing then
+      match v.begin_ with
+      | none => []
+      | some b0 =>
+        let (aC, aD) := bal1 o "auction"
+        let custody := decide (aC = v.baseC) && decide (aD = v.baseD)
+        let burned := b0.supply - o.supply
+        let collIn := (bal1 o "collector").2 - (bal1 b0 "collector").2      -- net: penalty in minus shortfall cover out
+        let proceeds := decide (realPaid = burned + collIn) && decide (burned + collIn + (v.e.target - realPaid) = v.e.target)
+        let ownerOk := decide ((bal1 o "owner").1 - (bal1 b0 "owner").1 = v.e.coll0 - realRecv)
+        mon seq "close_distributes" (custody && proceeds && ownerOk)
+    else []
+  let v' := { v with prev := some o, realPaid := realPaid, realRecv := realRecv }
+  let v' := if d2.isEmpty then v' else
+    { v' with s := { v'.s with auc := o.auc, bank := bankOf1 o, netFees := o.net, burned := v'.supply0 - o.supply } }
+  (v', d1 ++ d2 ++ m1 ++ m2 ++ m3 ++ extra)
+
+def priceMons1 (seq : String) (e : DutchV1.Env) (prev : Option DutchV1.Auc) (cur : DutchV1.Auc) (now : Int) : List String :=
+  let dur := now - cur.start
+  let valid := decide (0 ≤ cur.endP) && decide (cur.endP < cur.init)
+  let upper := mon seq "price_in_range" (DutchPrice.monLeStart cur.init cur.price)
+  let lower := if valid ∧ 0 ≤ dur ∧ dur ≤ e.T then
+      mon seq "price_in_range" (DutchPrice.monGeEnd cur.endP cur.price) ++
+      (match DutchPrice.tau cur.init cur.endP e.T with
+       | .ok t => mon seq "price_in_range_slack" (DutchPrice.monGeEndSlack cur.init cur.endP t cur.price)
+       | .error _ => [])
+    else []
+  let mono := match prev with
+    | some p => if p.start = cur.start ∧ p.init = cur.init ∧ p.endP = cur.endP ∧ valid then
+        mon seq "price_monotone" (decide (cur.price ≤ p.price)) else []
+    | none => []
+  upper ++ lower ++ mono
+
+def handleV1 (v : V1St) (seq : String) (f : List String) : V1St × List String :=
+  match f with
+  | ["dutch.v1.begin", env, r, b, m] =>
+    match parseEnv1 env, parseObs1 r b m with
+    | some e, some o =>
+      match o.auc with
+      | none => (v, [s!"BAD\t{seq}\tv1 begin without auction"])
+      | some a =>
+        let s0 := DutchV1.initSt e a (bankOf1 o) o.net
+        let v' : V1St := { e := e, s := s0, prev := some o, begin_ := some o, supply0 := o.supply, baseC := s0.otherC, baseD := s0.otherD }
+        let twaC := (getI (kv env) "twaC").getD 0
+        let okStart := match DutchPrice.startPrice twaC e.buffer with
+          | .ok p0 => decide (a.price = p0) && decide (a.init = p0) &&
+              (match DutchPrice.endPrice p0 e.cusp with | .ok ep => decide (a.endP = ep) | .error _ => false)
+          | .error _ => false
+        let okRec := decide (a.outCur = e.coll0) && decide (a.inCur = 0) && decide (a.end_ = a.start + e.T)
+        (v', mon seq "start_price" okStart ++ mon seq "start_record" okRec)
+    | _, _ => (v, [s!"BAD\t{seq}\tv1 begin"])
+  | ["dutch.v1.bid", who, amt, o, r, b, m] =>
+    match bidderNo who, parseInt? amt, parseObs1 r b m with
+    | some w, some amt, some obs =>
+      let res := DutchV1.bidE v.e v.s w amt
+      let okM := match res with | .ok _ => true | .error _ => false
+      let pm := match v.prev with
+        | some p => match p.auc with
+          | some a =>
+            if o = "ok" then
+              let (c0, d0) := bal1 p who
+              let (c1, d1) := bal1 obs who
+              -- the bidder names the collateral, the debt to pay is computed (truncated): + 2 debt units, + 1 collateral unit
+              if roundingSmall a.price v.e.decC && roundingSmallBack a.inPrice v.e.decD then
+                mon seq "posted_price" (monPosted (c1 - c0) ((d0 - d1) + 2) 0 a.inPrice v.e.decD a.price v.e.decC)
+              else []
+            else []
+          | none => []
+        | none => []
+      let v1 := { v with s := match res with | .ok s' => s' | .error _ => v.s }
+      finish1 v1 seq true okM o obs pm
+    | _, _, _ => (v, [s!"BAD\t{seq}\tv1 bid"])
+  | ["dutch.v1.tick", now, twaC, actC, twaD, actD, o, r, b, m] =>
+    match parseInt? now, parseInt? twaC, parseBool? actC, parseInt? twaD, parseBool? actD, parseObs1 r b m with
+    | some now, some twaC, some actC, some twaD, some actD, some obs =>
+      let s' := DutchV1.step v.e v.s (.tick now twaC actC twaD actD)
+      let prevRec := v.prev.bind (·.auc)
+      let pm := match obs.auc with
+        | some cur => priceMons1 seq v.e prevRec cur now ++
+            (if cur.start = now ∧ actC then
+               mon seq "start_price" (match DutchPrice.startPrice twaC v.e.buffer with
+                 | .ok p0 => decide (cur.price = p0) && decide (cur.init = p0) | .error _ => false)
+             else [])
+        | none => []
+      let dpanic := if o = "ok" then [] else [s!"DIFF\t{seq}\tv1 begin blocker panicked"]
+      let (v2, outs) := finish1 { v with s := s' } seq false true "ok" obs pm
+      (v2, dpanic ++ outs)
+    | _, _, _, _, _, _ => (v, [s!"BAD\t{seq}\tv1 tick"])
+  | _ => (v, [s!"BAD\t{seq}\tunknown dutch.v1 line"])
+
 def handle (st : St) (seq : String) (f : List String) : St × List String :=
   match f with
+  | "dutch.v1.begin" :: _ | "dutch.v1.bid" :: _ | "dutch.v1.tick" :: _ =>
+    let (v, outs) := handleV1 st.v1 seq f
+    ({ st with v1 := v }, outs)
   | ["dutch.start", twa, prem, o, v] =>
     match parseInt? twa, parseInt? prem with
     | some twa, some prem => (st, pureLine seq (DutchPrice.startPrice twa prem) o v)
